@@ -42,7 +42,7 @@ func c11CollidingObj(r *rng) *TV {
 
 func genC11(c *Ctx) {
 	r := c.R
-	c.Rule = "random documents in every carrier (including maps whose sibling keys collide under case folding and maps with interface-typed keys) with 6 data-directed queries each (all functions incl. RemoveKeysBy*, Select, AsArray, filters); each operation is evaluated 3..8 times (50 in a thorough sample) interleaved with the other operations of the document, on the data and on a deep copy; oracle: data deep-equal before/after (canonical snapshot), Sprint/structure of the operation unchanged, every answer equal to the first and to that of a freshly parsed copy; every value handed out is kept and must still be what it was after the later evaluations; finally every kept operation is reused on a document of the same shape with other leaf values - as a separate value and written into the original document in place - and on the same document with its map keys re-cased (one key in three with a colliding sibling spelling beside it) - and must answer like a freshly parsed copy. distinct = distinct (query skeleton, data shape, outcome class)"
+	c.Rule = "random documents in every carrier (including maps whose sibling keys collide under case folding, maps with interface-typed keys, and lists that are overlapping windows of one backing array) with 6 data-directed queries each (all functions incl. RemoveKeysBy*, Select, AsArray, filters); each operation is evaluated 3..8 times (50 in a thorough sample) interleaved with the other operations of the document, on the data and on a deep copy; oracle: data deep-equal before/after (canonical snapshot), Sprint/structure of the operation unchanged, every answer equal to the first and to that of a freshly parsed copy; every value handed out is kept and must still be what it was after the later evaluations; finally every kept operation is reused on a document of the same shape with other leaf values - as a separate value and written into the original document in place - and on the same document with its map keys re-cased (one key in three with a colliding sibling spelling beside it) - and must answer like a freshly parsed copy. distinct = distinct (query skeleton, data shape, outcome class)"
 	n := c.scale(5000, 50000)
 	mutations, nondet, opchg, stale := 0, 0, 0, 0
 	for i := 0; i < n; i++ {
@@ -51,6 +51,20 @@ func genC11(c *Ctx) {
 			d = c11CollidingObj(r)
 		} else {
 			d = genObj(3)
+		}
+		windows := i%10 == 7
+		if windows {
+			// lists that are windows of one backing array (sub-slices with spare capacity behind them, overlapping): whatever is
+			// appended to one of them in place shows in the others
+			var base []*TV
+			for j := 0; j < 6; j++ {
+				if i%20 == 7 {
+					base = append(base, tvStr(string(rune('a'+j))))
+				} else {
+					base = append(base, tvF64(float64(10*(j+1))))
+				}
+			}
+			d = tvMap("str", [][2]any{{hx("ws"), tvWin(base, [2]int{0, 2}, [2]int{1, 3}, [2]int{2, 4}, [2]int{0, 6}, [2]int{4, 5})}, {hx("n"), tvF64(2)}})
 		}
 		data := buildAny(d)
 		copyData := buildAny(d)
@@ -71,6 +85,14 @@ func genC11(c *Ctx) {
 				// arguments that read the document ($ paths and groups as arguments): their values must be re-read on
 				// every evaluation, not remembered in the operation
 				q = aq[r.Intn(len(aq))]
+			}
+			if windows {
+				q = []string{`$.ws.Select("$")`, `$.ws.Select("@")`, "$.ws.First()", "$.ws.Last()", `$.ws.Select("$").Count()`, `$.ws[@.Count().Greater($.n)]`, `$.ws.Select("$.First()")`,
+					`$.ws.Index(1).Select("$")`, `$.ws.Select("$").Last()`, "$.ws.Index(3)"}[(j+i/10)%10]
+			}
+			if j == 5 && i%4 == 1 {
+				// a text argument with blanks around it, handed to a function that reads numbers
+				q = r.Pick([]string{`$.n.Sum(" 1000 ")`, `$.n.Average("2 ")`, `$.n.Minimum("\t3")`, `$.n.Maximum(" x")`, `$.n.Add(" 5")`, `$.n.Equal(" 2 ")`, `$.n.AnyOf(" 2","2 ")`, `$.xs.Sum(" 1 ")`, `$.a.Contains(" a ")`})
 			}
 			if strings.Contains(q, "Sprintf") { // fmt verbs on arbitrary values: output is deterministic but not modelled
 				continue
